@@ -348,7 +348,8 @@ T_DefaultNew == /\ IsEvent("default_new")
                                 /\ G("dn.lock", RegLockFree(c))
                                 /\ G("dn.type", cli[c].arg.ty = E.ty)
                                 \* the registry spawns only when no live instance is registered
-                                /\ G("dn.miss", ~(E.ty \in DOMAIN reg.ent /\ SvcRunning(reg.ent[E.ty])))
+                                /\ G(IF \E b \in Actor : act[b].pc = "failed" /\ act[b].ty = E.ty THEN "dn.miss.typefailed" ELSE "dn.miss",
+                                     ~(E.ty \in DOMAIN reg.ent /\ SvcRunning(reg.ent[E.ty])))
                                 /\ RunCont(c)
 
 Alive == {a \in Actor : act[a].pc \notin {"unborn", "done", "failed"}} \cup {i \in DOMAIN tmr : tmr[i].st \notin {"ended"}}
